@@ -164,7 +164,7 @@ class Recorder:
                     name = args.get('name')
                     ev = {'op': 'add', 'fid': rec.fid_of_lf(self_), 'lf': rec.lfs.get(id(self_), 0), 'cls': cps(set_type), 'oid': oid,
                           'name': cps(name) if isinstance(name, str) else [],
-                          'has_setname': args.get('set_name') is not None, 'setname': cps(args.get('set_name') or ''),
+                          'has_setname': bool(args.get('set_name')), 'setname': cps(args.get('set_name') or ''),
                           'origin': args.get('origin_reference') if args.get('origin_reference') is not None else -1,
                           'attrs': [], 'has_data': cls == 'channel' and args.get('data') is not None, 'soft_only': False}
                     for k, v in args.items():
